@@ -324,6 +324,28 @@ fn main() {
             });
         }
     }
+    // (e'') the same with negative start times (objects before the audio starts are legal): the order must be by value, not by
+    // magnitude or bit pattern
+    let ntimes = ["-300", "-600", "0", "300", "-900", "-1200"];
+    for mode in 0..4u8 {
+        for n in 2..=if quick { 4 } else { 6 } {
+            let perms = permutations(n);
+            let name = format!("e-permutations-negative/mode{mode}/n{n}");
+            ctx.universe_isolated(&name, perms.len() as u64, 2.0, 1024, |idx, l| {
+                let mut t = format!("osu file format v14\n[General]\nMode: {mode}\n[TimingPoints]\n-2000,500,4,2,0,60,1,0\n[HitObjects]\n");
+                for &k in &perms[idx as usize] {
+                    let x = 10 * k;
+                    let s = SOUND_OF[k];
+                    let time = ntimes[k];
+                    match k % 3 {
+                        0 | 2 => t.push_str(&format!("{x},100,{time},1,{s},0:0:0:0:\n")),
+                        _ => t.push_str(&format!("{x},100,{time},2,{s},L|{}:100,1,50\n", x + 50)),
+                    }
+                }
+                oracle(l, t.as_bytes(), true, true, &|| format!("permutation {:?}\n--- text ---\n{t}", perms[idx as usize]));
+            });
+        }
+    }
     // (a) comes last: it is by far the largest universe, and the internal wall cap must not starve the others
     // (a) single edits + core pairs
     for mode in 0..4u8 {
